@@ -347,9 +347,9 @@ def run(repo, R):
         "state_changing_sites": n_state,
         "excluded_modules": EXCLUDED,
     })
-    R.floor("E1", n_pub, 40, "public functions/methods analysed")
+    R.floor("E1", n_pub, 30, "public functions/methods analysed")
     R.floor("E2", n_over, 10, "construct_array_contraction overrides")
-    R.floor("E1", inplace_local, 60, "in-place statements classified as local")
+    R.floor("E1", inplace_local, 30, "in-place statements classified as local")
     R.floor("E4", n_state, 1, "global numerical state sites (np.errstate in electrostatic_potential)")
     R.assumptions += [
         "numpy/python API table in gbsa/effects.py: which calls return views, which mutate (DESIGN 2.3)",
